@@ -166,7 +166,7 @@ def run_case(item):
             checks.append(("snapshot call_sub_level", z3.BoolVal(True), None))
         for name, neg, _w in checks:
             res["obligations"] += 1
-            r, m, dt = X.solve(p.constraints, [neg])
+            r, m, dt = X.solve(p.constraints, [neg], fast=True)
             res["solver_time"] += dt
             if r == "unsat":
                 res["discharged"] += 1
@@ -183,6 +183,101 @@ def run_case(item):
     return res
 
 
+RS_REGS = ["A", "B", "IL", "IH", "I", "BA", "X", "Y", "U", "S", "PC", "F", "FC", "FZ", "IMR", "TEMP3", "TEMP5"]
+RS_BASE = ["BA", "I", "X", "Y", "U", "S", "PC", "F"]
+RS_MASKS = {"A": 0xFF, "B": 0xFF, "IL": 0xFF, "IH": 0xFF, "I": 0xFFFF, "BA": 0xFFFF, "X": 0xFFFFF, "Y": 0xFFFFF, "U": 0xFFFFF, "S": 0xFFFFF, "PC": 0xFFFFF,
+            "F": 0xFF, "FC": 1, "FZ": 1, "IMR": 0xFF, "TEMP3": 0xFFFFFF, "TEMP5": 0xFFFFFF}
+
+
+def run_rust_case(item):
+    """Rust register file (LlamaState::set_reg/get_reg/mask_for from the crate's LLVM IR): 8 symbolic base
+    writes + TEMP3/TEMP5, then the given writes by name with symbolic 32-bit values, then every register is
+    read; z3 compares with regfile_spec and with the Python register file driven by the same sequence."""
+    tier, writes = item
+    X.setup()
+    from engines.rsym import build, interp
+    from sc62015.pysc62015.emulator import Registers, RegisterName
+
+    img, _b = build.image()
+    key = "rust: write " + " then ".join(writes)
+    res = {"key": key, "paths": 0, "obligations": 0, "discharged": 0, "unknown": 0, "cex": [], "solver_time": 0.0, "samples": [], "inconclusive": []}
+    ins = {}
+    for i, n in enumerate(RS_BASE):
+        ins[i] = z3.BitVec(f"in_{n}", 32)
+    ins[8], ins[9] = z3.BitVec("in_TEMP3", 32), z3.BitVec("in_TEMP5", 32)
+    ins[40] = len(writes)
+    for k, w in enumerate(writes):
+        ins[41 + 2 * k] = RS_REGS.index(w)
+        ins[42 + 2 * k] = z3.BitVec(f"v{k}", 32)
+
+    def fn():
+        out = {}
+        hooks = {"verif_in": lambda m, i: ins.get(i, 0), "verif_out": lambda m, i, v: out.__setitem__(i, v),
+                 "verif_load": lambda m, a: 0, "verif_store": lambda m, a, v: None}
+        m = interp.Machine(img, hooks)
+        m.run(img.mod.functions["harness_regfile"], [])
+        # the Python register file driven by the same sequence
+        regs = Registers()
+        for i, n in enumerate(RS_BASE):
+            regs.set(RegisterName[n], core.SymInt.from_term(z3.ZeroExt(32, ins[i]), 0, (1 << 32) - 1))
+        regs.set(RegisterName.TEMP3, core.SymInt.from_term(z3.ZeroExt(32, ins[8]), 0, (1 << 32) - 1))
+        regs.set(RegisterName.TEMP5, core.SymInt.from_term(z3.ZeroExt(32, ins[9]), 0, (1 << 32) - 1))
+        for k, w in enumerate(writes):
+            if w != "IMR":
+                regs.set(RegisterName[w], core.SymInt.from_term(z3.ZeroExt(32, ins[42 + 2 * k]), 0, (1 << 32) - 1))
+        py = {n: regs.get(RegisterName[n]) for n in RS_REGS if n != "IMR"}
+        return out, py
+
+    paths, stats = explore(fn, max_paths=500)
+    res["paths"] = len(paths)
+    res["solver_time"] += stats.solver_time
+    # spec
+    st = {n: z3.BitVecVal(0, b) for n, b in BASE.items()}
+    st["TEMP3"] = z3.BitVecVal(0, 24)
+    st["TEMP5"] = z3.BitVecVal(0, 24)
+    st["IMR"] = z3.BitVecVal(0, 8)
+    seq = [(n, ins[i]) for i, n in enumerate(RS_BASE)] + [("TEMP3", ins[8]), ("TEMP5", ins[9])] + [(w, ins[42 + 2 * k]) for k, w in enumerate(writes)]
+    for n, v in seq:
+        if n == "IMR":
+            st["IMR"] = z3.Extract(7, 0, v)
+        else:
+            st = dict(spec_write(st, n, v), IMR=st["IMR"])
+    for p in paths:
+        if p.status != "ok":
+            if p.status == "inconclusive":
+                res["inconclusive"].append(p.detail[:100])
+            else:
+                res["cex"].append({"key": f"{key}|raises|{type(p.exc).__name__}", "summary": repr(p.exc)[:200], "payload": None})
+            continue
+        out, py = p.value
+        checks = []
+        for i, n in enumerate(RS_REGS):
+            got = interp.to_term(out[i], 32)
+            want = z3.ZeroExt(24, st["IMR"]) if n == "IMR" else spec_read(st, n)
+            checks.append((f"rust read {n}", got != want))
+            if n != "IMR":
+                checks.append((f"rust vs python {n}", got != core.term_of(py[n], 32)))
+            mk = out[20 + i]
+            checks.append((f"rust mask_for {n}", z3.BoolVal(not (isinstance(mk, int) and mk == RS_MASKS[n]))))
+        for name, neg in checks:
+            res["obligations"] += 1
+            r, m_, dt = X.solve(p.constraints, [neg], fast=True)
+            res["solver_time"] += dt
+            if r == "unsat":
+                res["discharged"] += 1
+                if not res["samples"]:
+                    res["samples"].append({"case": key, "obligation": name, "negated_post_head": neg.sexpr()[:120]})
+            elif r == "sat":
+                ev = lambda t: m_.eval(t, model_completion=True).as_long()  # noqa: E731
+                inputs = {i: (v if isinstance(v, int) else ev(v)) for i, v in ins.items()}
+                payload = {"property": "C08", "kind": "regfile", "key": f"{key}|{name}", "rust": True, "inputs": {str(i): v for i, v in inputs.items()},
+                           "writes": list(writes), "obligation": name}
+                res["cex"].append({"key": f"{key}|{name}", "summary": f"{key}: {name}", "payload": payload})
+            else:
+                res["unknown"] += 1
+    return res
+
+
 def main(tier):
     t0 = time.time()
     X.setup()
@@ -193,6 +288,15 @@ def main(tier):
     else:
         cases += [(tier, (a, b)) for a, b in (("A", "BA"), ("IL", "IH"), ("IH", "IL"), ("F", "flag:C"), ("flag:Z", "FC"), ("X", "A"), ("BA", "B"))]
     results = common.pool_map(run_case, cases)
+    from engines.rsym import build
+
+    rb = build.ensure_built()
+    build.image()
+    rs_cases = [(tier, (w,)) for w in RS_REGS]
+    # the Rust register map caches aliases (F / FC / FZ entries): every ordered pair of writes is cheap, run them all
+    rs_cases += [(tier, (a, b)) for a in RS_REGS for b in RS_REGS]
+    results += common.pool_map(run_rust_case, rs_cases)
+    cases = cases + rs_cases
     tot = {k: 0 for k in ("paths", "obligations", "discharged", "unknown")}
     solver_time = 0.0
     samples, inconcl = [], []
@@ -226,12 +330,12 @@ def main(tier):
         "trusted_base": ["z3 5.1.0", "engines/pysym", "specs in checks/regfile_check.py (spec_write/spec_read)"],
         "solver_time_s": round(solver_time, 2),
         "explanation": "Inductive step over arbitrary register-file states: z3 decides, for all 32-bit written values and all prior states satisfying the representation invariant, that every read returns the specified alias/width/flag value, that the invariant is re-established, and that a snapshot applied to a fresh file reproduces every read.",
-        "functions_encoded": ["sc62015.pysc62015.emulator.Registers.get/set/get_by_name/set_by_name/get_flag/set_flag",
+        "functions_encoded": ["Rust (LLVM IR): sc62015_core::llama::state::LlamaState::set_reg/get_reg, mask_for (incl. hashbrown map)", "sc62015.pysc62015.emulator.Registers.get/set/get_by_name/set_by_name/get_flag/set_flag",
                               "sc62015.pysc62015.stepper.CPURegistersSnapshot.from_registers/apply_to/to_dict"],
-        "bounds": {"write_sequence_length": 1 if tier == "quick" else 2, "note": "arbitrary prior state => histories of any length by induction (invariant obligation)"},
+        "bounds": {"write_sequence_length": "Python: 1 (quick) / 2 (thorough) from an arbitrary state; Rust: canonical state + all ordered pairs of writes", "note": "arbitrary prior state => histories of any length by induction (invariant obligation)"},
     }
     assumptions = ["registers other than TEMP3/TEMP5 among the 14 TEMPs are 0 for the snapshot part (from_registers branches on each)",
-                   "Rust register file comparison is part of the rsym-based check (see DESIGN.md)"]
+                   "Rust register file: canonical state built by 8 symbolic base writes + 1 (quick) / 2 (thorough) symbolic writes by name; 18-byte snapshot packers (to_bytes/zip) are outside"]
     common.write_evidence("C08", tier, "other", coverage, assumptions, wall, len(rep.violations))
     print(f"C08 {tier}: cases={len(cases)} paths={tot['paths']} obligations={tot['obligations']} discharged={tot['discharged']} cex={len(cex)} solver={solver_time:.1f}s wall={wall:.1f}s")
     return code
